@@ -16,6 +16,7 @@
 #include <cmath>
 #include <algorithm>
 #include <unistd.h>
+#include <csignal>
 #include "solver.hpp"
 #include "mesh_reader.hpp"
 #include "simulation_initializer.hpp"
@@ -245,6 +246,7 @@ std::string run_scenario(const std::map<std::string, std::string>& kv){
     try{ simulation_initializer gate(sim, types, false); }
     catch(const intialization_exception& e){ std::string st = std::string("rejected ") + e.what(); for(auto& ch : st) if(ch == '\n') ch = ' '; return st; }
 
+    bool unstable = false;
     std::vector<cell_ptr> cells;
     for(unsigned i = 0; i < n; i++){
         const short kind = kinds[i % kinds.size()];
@@ -262,13 +264,18 @@ std::string run_scenario(const std::map<std::string, std::string>& kv){
         g_solver = &S;
         cells.clear();
         print_state(0, 3, S.get_cell_lst(), S.counter(), false);
+        size_t n0_nodes = 0; for(const auto& c : S.get_cell_lst()) n0_nodes += c->get_node_lst().size();
         for(int it = 0; it < iters && S.get_cell_lst().size() > 0; it++){
             g_iter = it; g_div_fired = g_use_fired = false; g_attempts.clear();
             // scheduled parameter changes that force an event at a chosen list position
             const auto& lst = S.get_cell_lst();
             for(const auto& s : sched) if(s.it == it){
                 cell_ptr c = lst[s.pos % lst.size()];
-                if(s.act == 'R'){ auto t = std::make_shared<cell_type_parameters>(*c->get_cell_type()); t->min_vol_ = 1e30; cell_tester::set_type(*c, t); }
+                if(s.act == 'R'){
+                    // minimum volume just above the current volume: the cell is below it at the end of this iteration (a larger
+                    // value would also raise the target volume, i.e. the pressure, and blow the cell up before it is removed)
+                    auto t = std::make_shared<cell_type_parameters>(*c->get_cell_type()); t->min_vol_ = 1.05 * c->get_volume(); cell_tester::set_type(*c, t);
+                }
                 else if(s.act == 'D'){ cell_tester::set_division_volume(*c, 0.); }
             }
             std::vector<cell_ptr> before = lst;
@@ -286,24 +293,37 @@ std::string run_scenario(const std::map<std::string, std::string>& kv){
             }
             std::cout << ev.str() << '\n';
             print_state(it, 2, S.get_cell_lst(), S.counter(), false);
+            size_t tot = 0; for(const auto& c : S.get_cell_lst()) tot += c->get_node_lst().size();
+            if(tot > 40 * n0_nodes + 4000){ unstable = true; break; }
         }
         g_solver = nullptr;
     }
     std::error_code ec; std::filesystem::remove_all(sim.output_folder_path_, ec);
     g_keep.clear(); g_obj.clear(); g_attempts.clear();
-    return "ok";
+    return unstable ? "unstable" : "ok";
 }
+}
+
+// a scenario whose mechanics run away (the refinement loop of an exploding mesh does not end) is cut off:
+// the answer "done timeout" ends the scenario, the process exits and the caller restarts with the next one
+extern "C" void on_alarm(int){
+    const char msg[] = "\ndone timeout\n";
+    ssize_t r = write(1, msg, sizeof(msg) - 1); (void)r;
+    _exit(0);
 }
 
 int main(){
     std::ios::sync_with_stdio(false);
+    std::signal(SIGALRM, on_alarm);
     std::string line;
     while(std::getline(std::cin, line)){
         auto w = vproto::split(line);
         if(w.empty() || w[0] != "scen"){ std::cout << "done bad-op\n"; std::cout.flush(); continue; }
         std::string st;
+        alarm(25);
         try{ st = run_scenario(parse_kv(w)); }
         catch(const std::exception& e){ st = std::string("exception ") + e.what(); for(auto& ch : st) if(ch == '\n') ch = ' '; }
+        alarm(0);
         std::cout << "done " << st << '\n'; std::cout.flush();
     }
     return 0;
